@@ -57,8 +57,9 @@ CHECKS.update({
     ),
 })
 
-SCHED_NOTE = ('Statement-granular cooperative schedules over threads with separate SQLite connections (timeout=0); races inside one '
-              'SQLite call and OS-process clients are not explored at this level. Trusts the scheduler seams (self-tested each run).')
+SCHED_NOTE = ('Statement-granular cooperative schedules (timeout=0) over threads with separate SQLite connections or one shared object, and over forked OS '
+              'processes driven through pipes (vlib/procsched.py, where the check has a *_processes sub-check); races inside one SQLite call are not explored. '
+              'Trusts the scheduler seams (self-tested each run).')
 
 CHECKS.update({
     'C05': dict(
